@@ -1,3 +1,4 @@
+import Pixman.Model.DrawFrame
 import Pixman.Props.C10
 import Pixman.Props.C03Final
 import Pixman.Props.C17Draw
@@ -21,7 +22,6 @@ namespace Pixman.DrawFrame
 open Pixman.Model.Format Pixman.Lemmas.FormatMem
 open Pixman.Gen.Formats (Rec formats)
 
-abbrev FImage := Pixman.Model.Format.Image
 
 /-- pixel position `x` lies inside a row: its bits end before the next row starts -/
 def InRow (img : FImage) (bpp x : Nat) : Prop := (x + 1) * bpp ≤ 32 * img.rowstride
@@ -289,24 +289,6 @@ theorem within_storeScanline (r : Rec) (hr : r ∈ formats) (ha : r.acc = 1) (im
 
 open Pixman.CompositeRegion (Info InRect)
 
-/-- the values handed to the write-back of row `j` of an `info` rectangle: anything computed from
-    the memory as it is before the row is stored (source, mask and destination rows fetched, the
-    combiner applied), column by column -/
-abbrev RowComb := Mem → Info → Nat → Nat → Nat
-
-/-- `dest_iter.write_back` of one row of `general_composite_rect`:
-    `image->store_scanline_32 (image, x, y, width, buffer)` -/
-def storeInfoRow (img : FImage) (comb : RowComb) (i : Info) (m : Mem) (j : Nat) : Mem :=
-  storeScanline img m i.destX.toNat (i.destY.toNat + j) ((List.range i.width.toNat).map (comb m i j))
-
-/-- `general_composite_rect (imp, info)`: `for (i = 0; i < height; ++i)` combine and write back -/
-def paintInfoMem (img : FImage) (comb : RowComb) (m : Mem) (i : Info) : Mem :=
-  (List.range i.height.toNat).foldl (storeInfoRow img comb i) m
-
-/-- a sequence of composite-function calls -/
-def paintInfosMem (img : FImage) (comb : RowComb) (infos : List Info) (m : Mem) : Mem :=
-  infos.foldl (paintInfoMem img comb) m
-
 theorem within_paintInfo (r : Rec) (hr : r ∈ formats) (ha : r.acc = 1) (img : FImage)
     (hf : img.format = r.code) (comb : RowComb) (S : Nat → Nat → Prop) (i : Info)
     (h0 : 0 ≤ i.destX ∧ 0 ≤ i.destY)
@@ -337,16 +319,6 @@ theorem within_paintInfos (r : Rec) (hr : r ∈ formats) (ha : r.acc = 1) (img :
 /-! ### a composite request on the general path -/
 
 open Pixman.Region Pixman.CompositeRegion
-
-abbrev CImage := Pixman.CompositeRegion.Image
-
-/-- `pixman_image_composite32` with the general implementation's composite function: the region is
-    computed, then every box of it is handed to `general_composite_rect`, whose destination iterator
-    writes each combined row back with the format's scanline store (C10) -/
-def generalCompositeMem (img : FImage) (comb : RowComb) (src : CImage) (mask : Option CImage) (dest : CImage)
-    (sx sy mx my dx dy w h : Int) (m : Mem) : Mem :=
-  let p := computeCompositeRegion32 src mask dest sx sy mx my dx dy w h
-  if p.2 then paintInfosMem img comb (compositeBoxes p.1 sx sy mx my dx dy) m else m
 
 /-- the intersection `R` of the property statement on natural pixel coordinates -/
 def RNat (src : CImage) (mask : Option CImage) (dest : CImage) (sx sy mx my dx dy w h : Int) (x y : Nat) : Prop :=
@@ -432,22 +404,6 @@ theorem bitsWithin_of_within {bpp : Nat} (hbpp : Bpp bpp) {img : FImage} {S : Na
     (hbm : m.Bytes) (h : Within img bpp S m m') (hrow : ∀ x y, S x y → InRow img bpp x) :
     BitsWithin (PixBits img bpp S) m m' :=
   ⟨h.bytes, fun k hk => within_bits hbpp hbm h hrow k (fun x y hs hin => hk ⟨x, y, hs, hin⟩)⟩
-
-/-- `dest_write_back_narrow` for a destination with an alpha map: the row goes to the image and, at
-    `(x - alpha_origin_x, y - alpha_origin_y)`, to the alpha map -/
-def storeInfoRowA (imgD imgA : FImage) (ox oy : Int) (comb : RowComb) (i : Info) (m : Mem) (j : Nat) : Mem :=
-  let vs := (List.range i.width.toNat).map (comb m i j)
-  storeScanline imgA (storeScanline imgD m i.destX.toNat (i.destY.toNat + j) vs)
-    (i.destX - ox).toNat (i.destY + (j : Int) - oy).toNat vs
-
-def paintInfoMemA (imgD imgA : FImage) (ox oy : Int) (comb : RowComb) (m : Mem) (i : Info) : Mem :=
-  (List.range i.height.toNat).foldl (storeInfoRowA imgD imgA ox oy comb i) m
-
-/-- a composite request on the general path, destination with alpha map `a` stored in `imgA` -/
-def generalCompositeAlphaMem (imgD imgA : FImage) (comb : RowComb) (src : CImage) (mask : Option CImage)
-    (dest : CImage) (a : AlphaMap) (sx sy mx my dx dy w h : Int) (m : Mem) : Mem :=
-  let p := computeCompositeRegion32 src mask dest sx sy mx my dx dy w h
-  if p.2 then (compositeBoxes p.1 sx sy mx my dx dy).foldl (paintInfoMemA imgD imgA a.ox a.oy comb) m else m
 
 /-- the alpha-map pixels that correspond to the pixels of `R`: `(x - origin_x, y - origin_y)` -/
 def RAlpha (src : CImage) (mask : Option CImage) (dest : CImage) (a : AlphaMap) (sx sy mx my dx dy w h : Int)
